@@ -540,7 +540,7 @@ func Run(script interface{}, cfg simrt.Config) *world.Outcome {
 	service.VerifResetCounters()
 	message.VerifSetPacketIDCounter(sc.PIDStart)
 	r := &run{sc: sc, out: out, noRel: map[uint16]bool{}}
-	r.clientID = fmt.Sprintf("vc%d", atomic.AddUint64(&runCounter, 1))
+	r.clientID = fmt.Sprintf("vc%09d", atomic.AddUint64(&runCounter, 1)) // fixed width: the CONNECT has the same length in every execution
 	res := simrt.Run(cfg, nil, func(s *simrt.Sim) {
 		r.s = s
 		r.director()
